@@ -371,6 +371,7 @@ class PteraTransformer(NodeTransformer):
             self.linenos[target.id] = target.lineno
         ann_arg = ann if ann else ast.Constant(value=None)
         value_arg = self._get("ABSENT") if value is None else value
+        prelude = []
         if isinstance(target, ast.Name):
             value_args = [
                 target.id,
@@ -384,6 +385,27 @@ class PteraTransformer(NodeTransformer):
         ):
             slc = target.slice
             slc = slc.value if isinstance(target.slice, ast.Index) else slc
+            if not expression and self.should_instrument(
+                target.value.id, ann_arg
+            ):
+                # The index is needed both to report the interaction and to
+                # perform the store: evaluate the value, then the index,
+                # exactly once each (Python's order for `d[i] = v`).
+                vsym, isym = _gensym(), _gensym()
+                prelude = [
+                    ast.Assign(
+                        targets=[ast.Name(id=sym, ctx=ast.Store())],
+                        value=expr,
+                        lineno=orig.lineno,
+                        col_offset=orig.col_offset,
+                    )
+                    for sym, expr in ((vsym, value_arg), (isym, slc))
+                ]
+                value_arg = ast.Name(id=vsym, ctx=ast.Load())
+                slc = ast.Name(id=isym, ctx=ast.Load())
+                target = ast.Subscript(
+                    value=target.value, slice=slc, ctx=ast.Store()
+                )
             value_args = [
                 target.value.id,
                 self._wrap_call("__ptera_Key", "index", deepcopy(slc)),
@@ -429,12 +451,13 @@ class PteraTransformer(NodeTransformer):
             )
         else:
             return [
+                *prelude,
                 ast.Assign(
                     targets=[target],
                     value=new_value,
                     lineno=orig.lineno,
                     col_offset=orig.col_offset,
-                )
+                ),
             ]
 
     def visit_body(self, stmts):
